@@ -325,6 +325,8 @@ func (t trackSpec) clock() int {
 		return 48000
 	case "aac16":
 		return 16000
+	case "aac48k90": // 48 kHz AAC with time stamps on a 90 kHz clock (MPEG-TS only: the muxer rescales)
+		return 90000
 	case "h264k", "h264bk": // H264 on a millisecond clock (MPEG-TS only: the muxer rescales to 90 kHz; fMP4 tracks keep their timescale)
 		return 1000
 	case "aacsbr": // HE-AAC, explicit SBR signalling: 24 kHz core (the track's clock and timescale), 48 kHz extension
@@ -366,6 +368,9 @@ func (c muxCfg) opusDur(k int) int64 {
 
 // audioSpan is the duration in clock ticks of the first n access units of one audio write on track t.
 func (c muxCfg) audioSpan(t trackSpec, n int) int64 {
+	if t.Kind == "aac48k90" {
+		return int64(n) * 1920 // 1024 samples at 48 kHz on the 90 kHz clock
+	}
 	if t.Kind != "opus" {
 		return int64(n) * 1024
 	}
@@ -452,6 +457,8 @@ func newTrackCfg(c muxCfg, t trackSpec) *Track {
 		tr.Codec = &codecs.VP9{Width: 1920, Height: 804, Profile: 0, BitDepth: 8, ChromaSubsampling: 1, ColorRange: false}
 	case "aac44", "aac48", "aac16":
 		tr.Codec = &codecs.MPEG4Audio{Config: mpeg4audio.Config{Type: 2, SampleRate: t.clock(), ChannelCount: 2}}
+	case "aac48k90":
+		tr.Codec = &codecs.MPEG4Audio{Config: mpeg4audio.Config{Type: 2, SampleRate: 48000, ChannelCount: 2}}
 	case "aacps": // audio object type 29 (parametric stereo) given as the main type: another RFC 6381 string, mp4a.40.29
 		tr.Codec = &codecs.MPEG4Audio{Config: mpeg4audio.Config{Type: 29, SampleRate: t.clock(), ChannelCount: 2}}
 	case "aacsbr":
